@@ -179,7 +179,7 @@ pub fn run(r: &Run) {
     r.set_rule(RULE);
     r.assume("the rig's import policies do not rewrite next hops, so the next hop shown by iter_reach is the registered one; VRF (VPN) FIB distribution is not generated");
     r.assume("the expected FIB uses the repository's own ranking of the final state (collect_loc_rib_paths / ecmp_paths, judged by C02); what is decided here is that the request stream keeps up with it");
-    r.prop("fib-histories", r.tier.pick(40_000, 2_000_000), || arb_case(r.tier.pick(20, 40)), check);
+    r.prop("fib-histories", r.tier.pick(150_000, 3_000_000), || arb_case(r.tier.pick(20, 40)), check);
 }
 
 pub fn replay(_sub: &str, case: &Value) -> Result<CheckResult, String> {
